@@ -21,8 +21,58 @@ def cfg_key(c):
     return (c['backend'], c['mode'], c['nkeys'], c['pos'], c['idx'], c['arith'])
 
 
+KZG_SRC = '/repo/std/commitments/kzg/verifier.go'
+# challenge derivation -> (function holding it, values the protocol requires it to bind, by normalised argument)
+FS_REQUIRED = {
+    'multipoint_lambda': ('FoldProofsMultiPoint', ['digests', 'proofs.Quotient', 'proofs.ClaimedValue', 'points']),
+    'batch_gamma': ('deriveGamma', ['point', 'digests', 'claimedValues']),
+}
+
+
+def fs_binding(ctx):
+    """Extracted model: which values the KZG gadget writes into the hash of each folding challenge (read from the source),
+    checked by TLC against the values an adaptive prover must not be able to choose after the challenge (FsBinding.tla)."""
+    import re
+    try:
+        src = open(KZG_SRC).read()
+    except OSError as e:
+        raise vlib.Infra('cannot read %s: %s' % (KZG_SRC, e))
+    bound = {}
+    for chal, (fn, req) in FS_REQUIRED.items():
+        m = re.search(r'\nfunc \(v \*Verifier\[[^\]]*\]\) %s\(.*?\n}\n' % fn, src, re.S)
+        if not m:
+            raise vlib.Infra('model out of date: function %s not found in the KZG gadget' % fn)
+        args = re.findall(r'Marshal(?:G1|Scalar)\(([^()]*)\)', m.group(0))
+        norm = set()
+        for a in args:
+            a = a.strip().lstrip('&*')
+            a = re.sub(r'\[[^\]]*\]', '', a)
+            a = a.replace('.G1El', '')
+            norm.add(a)
+        if not norm:
+            raise vlib.Infra('model out of date: no transcript writes recognised in %s' % fn)
+        bound[chal] = sorted(norm)
+    setlit = lambda xs: '{' + ', '.join('"%s"' % x for x in xs) + '}'
+    mc = ['---- MODULE FsBindingMC ----', 'EXTENDS FsBinding',
+          'MCChallenges == ' + setlit(sorted(FS_REQUIRED)),
+          'MCBound == ' + ' @@ '.join('("%s" :> %s)' % (c, setlit(bound[c])) for c in sorted(bound)),
+          'MCRequired == ' + ' @@ '.join('("%s" :> %s)' % (c, setlit(FS_REQUIRED[c][1])) for c in sorted(FS_REQUIRED)),
+          '====']
+    cfg = 'SPECIFICATION Spec\nCONSTANTS\n  Challenges <- MCChallenges\n  Bound <- MCBound\n  Required <- MCRequired\n  Emit = TRUE\nCHECK_DEADLOCK FALSE\n'
+    r = ctx.tlc('FsBindingMC', 'FsBindingMC.cfg', workers=1, extra_files={'FsBindingMC.tla': '\n'.join(mc) + '\n', 'FsBindingMC.cfg': cfg})
+    if len(r.beh) != len(FS_REQUIRED):
+        raise vlib.Infra('FsBinding produced %d rows' % len(r.beh))
+    for row in r.beh:
+        ctx.case(key='fiat-shamir binding ' + row['challenge'], nontrivial=True)
+        if row['verdict'] == 'forgeable':
+            ctx.report('kzg gadget challenge %s does not bind %s: an adaptive prover chooses it after the challenge'
+                       % (row['challenge'], ', '.join(sorted(row['free']))), {'bound': bound, 'row': row})
+    ctx.extra['fs_binding_extracted'] = bound
+
+
 def run(ctx):
     quick = ctx.tier == 'quick'
+    fs_binding(ctx)
     ctx.rule = ('case = inner behaviour (circuit shape x edit sequence, TLC) x outer configuration (Recursion.tla) judged natively '
                 'and in-circuit; non-trivial = at least one edit or a selector that does not designate the triple\'s own key')
     ctx.assumptions += [
@@ -59,7 +109,9 @@ def run(ctx):
             behs += pairs[:1500]
         if len(behs) < 40:
             raise vlib.Infra('too few %s behaviours: %d' % (backend, len(behs)))
-        inner[backend] = behs
+        # the same behaviours on inner circuits whose public inputs are zero (exceptional scalars of the in-circuit MSM)
+        zero = [dict(b, shape=z) for b in behs if b['shape'] == 'p1' and len(b['edits']) <= 1 for z in ('p1z', 'p3z')]
+        inner[backend] = behs + zero
     # ---- pair every behaviour with outer configurations: every behaviour in witness mode, and a rotation through the others
     cases = []
     for backend, behs in inner.items():
@@ -68,7 +120,7 @@ def run(ctx):
         ctx.rng.shuffle(behs)
         per = 1 if quick else 3
         for n, b in enumerate(behs):
-            special = any(e.get('cls') in SPECIAL for e in b['edits'])
+            special = any(e.get('cls') in SPECIAL for e in b['edits']) or b['shape'] in ('p1z', 'p3z')   # zero scalars
             chosen = [(backend, 'witness', 1, 0, 0, 'complete')]
             for k in range(per):
                 chosen.append(others[(n * per + k) % len(others)])
